@@ -87,7 +87,7 @@ macro_rules! ctr_limit {
                     assert!(s.try_current_pos::<u128>().ok() == Some(start));
                 } else {
                     let mut core = ctr::CtrCore::<_, ctr::flavors::$flavor>::inner_iv_init(c.clone(), blk::<$bs>(&iv));
-                    core.set_block_pos(first);
+                    core.set_block_pos(first as _);
                     s = StreamCipherCoreWrapper::from_core(core);
                     let mut skip = [0u8; OFF];
                     s.try_apply_keystream(&mut skip).unwrap();
@@ -115,7 +115,7 @@ macro_rules! belt_limit {
             spec::belt_ks(c.p(), s0, first, &mut ks);
             let mk = || {
                 let mut core = crate::common::belt_core(c.clone(), &iv);
-                core.set_block_pos(first);
+                core.set_block_pos(first as _);
                 let mut s = StreamCipherCoreWrapper::from_core(core);
                 let mut skip = [0u8; OFF];
                 s.try_apply_keystream(&mut skip).unwrap();
@@ -169,9 +169,9 @@ macro_rules! ctr_injective {
             kani::assume(i != j);
             let c = UfE::<$bs, U1>::with_key([0, 0]);
             let mut core = ctr::CtrCore::<_, ctr::flavors::$flavor>::inner_iv_init(c, blk::<$bs>(&iv));
-            core.set_block_pos(i);
+            core.set_block_pos(i as _);
             let bi = core.iv_state();
-            core.set_block_pos(j);
+            core.set_block_pos(j as _);
             let bj = core.iv_state();
             let mut same = true;
             let mut k = 0;
@@ -196,9 +196,9 @@ pub fn belt_injective() {
     let mut core = belt_ctr::BeltCtrCore::inner_iv_init(c, blk::<U16>(&iv));
     let mut a = [0u8; 16];
     let mut b = [0u8; 16];
-    core.set_block_pos(i);
+    core.set_block_pos(i as _);
     core.write_keystream_block(blk_mut::<U16>(&mut a));
-    core.set_block_pos(j);
+    core.set_block_pos(j as _);
     core.write_keystream_block(blk_mut::<U16>(&mut b));
     // E is a permutation: the two keystream blocks are equal iff the two counter blocks are
     let mut same = true;
